@@ -86,6 +86,25 @@ class Program:
             raise KeyError(key)
         return t
 
+    def inherent(self, ty, name):
+        """path of the inherent method `name` of type `ty` ('p8e0::P8E0', 'pxe2::PxE2<N>'), wherever its impl block lives"""
+        key = (ty, name)
+        if not hasattr(self, '_inh'):
+            self._inh = {}
+            for p, b in self.bodies.items():
+                if b['defkind'] != 'AssocFn' or b['name'] is None:
+                    continue
+                m = re.match(r'^(?:.*::)?<impl ([^<>]+(?:<[^<>]*>)?)>::(\w+)$', p)
+                if m and ' for ' not in m.group(1) and ' as ' not in p:
+                    self._inh.setdefault((m.group(1), m.group(2)), []).append(p)
+                    continue
+                m = re.match(r'^([a-z0-9_:]*[A-Z]\w*)(?:::<([^<>]*)>)?::(\w+)$', p)
+                if m:
+                    t = m.group(1) + ('<%s>' % m.group(2) if m.group(2) else '')
+                    self._inh.setdefault((t, m.group(3)), []).append(p)
+        c = self._inh.get(key, [])
+        return c[0] if len(c) == 1 else None
+
     def find_impl_method(self, trait_path, self_ty, name):
         for im in self.impl_index.get((trait_path, self_ty), []):
             for it in im['items']:
